@@ -30,7 +30,7 @@ func checkHuge(c HugeCase) error {
 }
 
 func TestC08Huge(t *testing.T) {
-	r := h.NewRecorder(t, "C08", "huge", "a constructed tree (binary 2100, bushy 2500, caterpillar 2100 tips) compared with two variants that differ by interchanges at one branch in 53 / 211 and with itself in another presentation: counts, identity, swap, weighted terms and independence of the presentation judged by the same oracle as the drawn cases; every case is non-trivial")
+	r := h.NewRecorder(t, "C08", "huge", "a constructed unrooted tree (binary below a root of degree three 2100, bushy 2500, caterpillar 2100 tips) compared with two variants that differ by interchanges at one branch in 53 / 211 and with itself in another presentation: counts, identity, swap, weighted terms and independence of the presentation judged by the same oracle as the drawn cases; every case is non-trivial")
 	var rc HugeCase
 	if replaying, mine := r.ReplayCase(&rc); replaying {
 		if mine {
@@ -38,7 +38,7 @@ func TestC08Huge(t *testing.T) {
 		}
 		return
 	}
-	for k, c := range []HugeCase{{Shape: "binary", N: 2100}, {Shape: "bushy", N: 2500}, {Shape: "caterpillar", N: 2100}} {
+	for k, c := range []HugeCase{{Shape: "ubinary", N: 2100}, {Shape: "bushy", N: 2500}, {Shape: "caterpillar", N: 2100}} {
 		if k%h.NShards() != h.Shard() {
 			continue
 		}
